@@ -99,6 +99,9 @@ let eval_stream (stream : string) (case : string) (impl : string) : verdict =
     let spec = String.concat ";" ssteps ^ "|" ^ fields_s sf ^ String.concat "" sgs
                ^ "|te=" ^ toks_s (tv "transfer-encoding") ^ "|cv=" ^ toks_s (tv "connection") in
     { model; fails = (if spec <> impl then [("C19", "-")] else []) }
+  | "parse" -> let (model, fails) = Parse_o.eval_parse case impl in { model; fails }
+  | "prefix" -> let (model, fails) = Parse_o.eval_prefix case impl in { model; fails }
+  | "grammar" -> let (model, fails) = Parse_o.eval_grammar case impl in { model; fails }
   | s -> failwith ("unknown stream " ^ s)
 
 let () =
